@@ -261,6 +261,8 @@ class Explorer:
                 return []
             if kind == "pidref":
                 return [self.inst.cid_rev.get(txt, "junk")]
+            if kind == "doc":
+                return [self.inst.ver_rev.get(hashlib.sha256(txt.encode("utf-8")).hexdigest(), "junk")]
             lines = txt.split("\n")
             if lines and lines[-1] == "":
                 lines = lines[:-1]
@@ -271,7 +273,7 @@ class Explorer:
             if record and t is not None:
                 e = {"t": t.tid, "op": op, "tok": token, "out": out}
                 if op in ("open:r", "open:rw") and out == "ok" and token and \
-                        token[0][0] in ("pidref", "cidref"):
+                        token[0][0] in ("pidref", "cidref", "doc"):
                     e["val"] = content_of(paths[0], token[0][0])
                 raw.append(e)
             if t is not None:
